@@ -12,7 +12,7 @@ use crate::engine::{guarded, pattern, show, Limits, Report, Tier, Violation};
 use crate::exch::{ExchCfg, Gate, Menu, ServerMsg};
 use crate::exch_run::{replay_exchange, run_exchanges};
 
-pub const RULE: &str = "E1: for every N in 0..=8 (Content-Length: N; response HTTP/1.0 and 1.1; also with Connection: close on either side, an HTTP/1.0 request, an ignored Transfer-Encoding on an HTTP/1.0 response, and as answers to a refused CONNECT (407 / 403 / 502), DELETE and OPTIONS; body followed by 3 bytes of a next response, or by a stray CRLF) the complete graph over (remaining, consumed, arrived) with 1-byte arrivals and read buffers 0..=N+2; close-delimited streams of 0..=6 bytes (HTTP/1.0, HTTP/1.1, HTTP/1.1 with Connection: keep-alive, HTTP/1.0 with an ignored Transfer-Encoding, a refused CONNECT) with buffers 0..=4, readiness required in every state and the must-close verdict in both successor states. E2: every N in 0..=70000 on a fresh flow: single reads with window length {0,1,N-1,N,N+1,N+3} x buffer {0,1,N-1,N,N+1}, two-step reads through the state 'one byte left', and all steps again in the completed state; large N {2^32-1,2^32+1,2^63,u64::MAX}. Part c (end to end, judged on wire bytes only): request kinds {GET, POST+Expect with the 100 read in time, POST+Expect whose 100 comes late and is skipped in RecvResponse, GET whose final response follows an interim 103, POST+Expect refused by a response that has a body} x N in 0..=8 x every two-window arrival schedule (first window = every prefix of the stream, then everything): the body handed out equals the N bytes after the head and the exchange consumes exactly up to the body's end; Content-Length values beyond u64 (2^64, 2^64+3, 20 and 23 digits) must be refused. distinct = distinct (N class, window class, buffer class, moved class) cells";
+pub const RULE: &str = "E1: for every N in 0..=8 (Content-Length: N; response HTTP/1.0 and 1.1; also with Connection: close on either side, an HTTP/1.0 request, an ignored Transfer-Encoding on an HTTP/1.0 response, and as answers to a refused CONNECT (407 / 403 / 502), DELETE and OPTIONS; body followed by 3 bytes of a next response, or by a stray CRLF) the complete graph over (remaining, consumed, arrived) with 1-byte arrivals and read buffers 0..=N+2; close-delimited streams of 0..=6 bytes (HTTP/1.0, HTTP/1.1, HTTP/1.1 with Connection: keep-alive, HTTP/1.0 with an ignored Transfer-Encoding, a refused CONNECT) with buffers 0..=4, readiness required in every state and the must-close verdict in both successor states. E2: every N in 0..=70000 on a fresh flow: single reads with window length {0,1,N-1,N,N+1,N+3} x buffer {0,1,N-1,N,N+1}, two-step reads through the state 'one byte left', and all steps again in the completed state; large N {2^32-1,2^32+1,2^63,u64::MAX}. Part c (end to end, judged on wire bytes only): request kinds {GET, POST+Expect with the 100 read in time, POST+Expect whose 100 comes late and is skipped in RecvResponse, GET whose final response follows an interim 103, POST+Expect refused by a response that has a body, GET answered by a head of 42 fields, GET answered by a 302 with a body and Connection: close} x N in 0..=8 x every two-window arrival schedule (first window = every prefix of the stream, then everything): the body handed out equals the N bytes after the head and the exchange consumes exactly up to the body's end; Content-Length values beyond u64 (2^64, 2^64+3, 20 and 23 digits) must be refused. distinct = distinct (N class, window class, buffer class, moved class) cells";
 
 fn graph_cfgs() -> Vec<Arc<ExchCfg>> {
     let mut out = Vec::new();
@@ -152,16 +152,23 @@ fn seq(n: u64, steps: &[(usize, usize)], inp: &[u8], out: &mut [u8]) -> Result<S
 /// nothing but the counts the library returns.
 fn end_to_end(kind: &str, n: usize, split: usize) -> Result<(), (String, String)> {
     let h = |e: String| ("C08:harness:end-to-end".to_string(), e);
-    let rq = if kind == "get" || kind == "get-after-103" { ReqCfg::new("GET", "1.1", "http://a.test/") } else { ReqCfg::new("POST", "1.1", "http://a.test/").orig("content-length", "3").orig("expect", "100-continue") };
+    let rq = if kind.starts_with("get") { ReqCfg::new("GET", "1.1", "http://a.test/") } else { ReqCfg::new("POST", "1.1", "http://a.test/").orig("content-length", "3").orig("expect", "100-continue") };
     let mut stream: Vec<u8> = Vec::new();
     match kind {
-        "get" | "post-refused" => {}
+        "get" | "post-refused" | "get-40-fields" | "get-302-conn-close" => {}
         // an interim 103 is handed out first; the caller asks again for the final response
         "get-after-103" => stream.extend_from_slice(b"HTTP/1.1 103 Early Hints\r\nLink: </s.css>; rel=preload\r\n\r\n"),
         _ => stream.extend_from_slice(b"HTTP/1.1 100 Continue\r\n\r\n"),
     }
     let interim_len = stream.len();
-    stream.extend_from_slice(format!("HTTP/1.1 {}\r\nX-Pad:\r\nContent-Length: {}\r\n\r\n", if kind == "post-refused" { "403 Forbidden" } else { "200 OK" }, n).as_bytes());
+    // "get-40-fields": a head with 40 fields ahead of the length; "get-302-conn-close": a redirect that carries a
+    // body and announces the close of the connection (the body is delivered before the redirect state all the same)
+    let more: String = match kind {
+        "get-40-fields" => (0..40).map(|i| format!("X-F{}: v{}\r\n", i, i)).collect(),
+        "get-302-conn-close" => "Location: /n\r\nConnection: close\r\n".to_string(),
+        _ => String::new(),
+    };
+    stream.extend_from_slice(format!("HTTP/1.1 {}\r\nX-Pad:\r\n{}Content-Length: {}\r\n\r\n", if kind == "post-refused" { "403 Forbidden" } else if kind == "get-302-conn-close" { "302 Found" } else { "200 OK" }, more, n).as_bytes());
     let head_end = stream.len();
     let body = pattern(n);
     stream.extend_from_slice(&body);
@@ -206,7 +213,8 @@ fn end_to_end(kind: &str, n: usize, split: usize) -> Result<(), (String, String)
                 AnyFlow::SendBody(b).proceed().map_err(h)?.ok_or(h("cannot leave SendBody".into()))?
             }
             AnyFlow::RecvResponse(mut r) => {
-                let (c, resp) = r.try_response(&stream[off..avail]).map_err(|e| h(format!("try_response: {:?}", e)))?;
+                // (a well-formed stream: an error here means the N bytes are never handed out)
+                let (c, resp) = r.try_response(&stream[off..avail]).map_err(|e| ("C08:end-to-end:body-not-delivered".to_string(), format!("try_response failed on a window of {} bytes of a well-formed stream: {:?}", avail - off, e)))?;
                 off += c;
                 let interim = resp.as_ref().map(|r| r.status().is_informational()).unwrap_or(false);
                 if interim {
@@ -255,14 +263,14 @@ fn end_to_end(kind: &str, n: usize, split: usize) -> Result<(), (String, String)
     Err(h("driver did not terminate".into()))
 }
 
-const E2E_KINDS: [&str; 5] = ["get", "post-late-100", "post-100-in-time", "get-after-103", "post-refused"];
+const E2E_KINDS: [&str; 7] = ["get", "post-late-100", "post-100-in-time", "get-after-103", "post-refused", "get-40-fields", "get-302-conn-close"];
 
 fn run_end_to_end(rep: &mut Report) {
     let mut cells = 0u64;
     let instances_before = rep.violation_instances();
     for kind in E2E_KINDS {
         for n in 0..=8usize {
-            for split in 0..=(25 + 60 + n + 10) {
+            for split in 0..=(25 + 60 + n + 10 + if kind == "get-40-fields" { 520 } else { 40 }) {
                 cells += 1;
                 let r = guarded(|| end_to_end(kind, n, split));
                 let fail = match r {
